@@ -174,12 +174,13 @@ class Ctx:
 
 
 def make_level(base, i, lv, ctx):
-    """One chain level.  plain = False: ``class I_i(base)`` with @interfacemethod definitions;
+    """One chain level ([base] may be a tuple of base interfaces).  plain = False: ``class I_i(base)`` with @interfacemethod definitions;
     plain = True: ``class IC_i(type(base))`` (a plain subclass of the interface class so far)
     defining the same methods as ordinary methods, then ``IC_i('I_i', (base,), {})``."""
     ad = lv["adapt"]
     pv = lv.get("prov")
     other = lv["other"]
+    bases = base if isinstance(base, tuple) else (base,)
 
     def enter(self, obj):
         ctx.log.append(["a", i])
@@ -229,14 +230,14 @@ def make_level(base, i, lv, ctx):
             ns["providedBy"] = prov_plain
         if other:
             ns["extra_method"] = lambda self: i
-        IC = type("IC%d" % i, (type(base),), ns)
+        IC = type("IC%d" % i, (type(bases[0]),), ns)
         holder.append(IC)
-        return IC("I%d" % i, (base,), {})
+        return IC("I%d" % i, bases, {})
 
     # class statements: a body that mentions super() gets a __classcell__, which InterfaceClass
     # only accepts together with interfacemethods
     if ad_del and pv_del:
-        class IX(base):
+        class IX(*bases):
             @interfacemethod
             def __adapt__(self, obj):
                 enter(self, obj)
@@ -251,7 +252,7 @@ def make_level(base, i, lv, ctx):
                 def extra_method(self):
                     return i
     elif ad_del:
-        class IX(base):
+        class IX(*bases):
             @interfacemethod
             def __adapt__(self, obj):
                 enter(self, obj)
@@ -265,7 +266,7 @@ def make_level(base, i, lv, ctx):
                 def extra_method(self):
                     return i
     elif pv_del:
-        class IX(base):
+        class IX(*bases):
             @interfacemethod
             def providedBy(self, obj):
                 enter_prov(self, obj)
@@ -279,7 +280,7 @@ def make_level(base, i, lv, ctx):
                 def extra_method(self):
                     return i
     else:
-        class IX(base):
+        class IX(*bases):
             if ad is not None:
                 @interfacemethod
                 def __adapt__(self, obj):
@@ -294,6 +295,32 @@ def make_level(base, i, lv, ctx):
                     return i
 
     return IX
+
+
+class MetaclassConflict(Exception):
+    pass
+
+
+def build_dag(nodes, ctx):
+    """A DAG of interfaces, nodes in creation order: {"bases": [indices] ([] = Interface),
+    "how": "class" | "call_ic" | "call_type", "adapt", "prov", "other"}.  Returns the last one."""
+    from zope.interface.interface import InterfaceClass
+    ifaces = []
+    for i, nd in enumerate(nodes):
+        bases = tuple(ifaces[b] for b in nd["bases"]) or (Interface,)
+        if nd["how"] == "call_ic":
+            it = InterfaceClass("I%d" % i, bases, {})
+        elif nd["how"] == "call_type":
+            it = type(bases[0])("I%d" % i, bases, {})
+        else:
+            try:
+                it = make_level(bases, i, nd, ctx)
+            except TypeError as e:
+                if "metaclass conflict" in str(e):
+                    raise MetaclassConflict(str(e))
+                raise
+        ifaces.append(it)
+    return ifaces[-1]
 
 
 def build_iface(chain, ctx):
@@ -605,7 +632,14 @@ def outcome(f, ctx, alt_given, alt):
 def run_instrumented(case):
     ctx = Ctx()
     ctx.flavour = case.get("flavour")
-    I = build_iface(case["chain"], ctx)
+    if case.get("dag") is not None:
+        try:
+            I = build_dag(case["dag"], ctx)
+        except MetaclassConflict:
+            return {"conflict": True, "log": [], "out": ["unknown", "metaclass conflict"], "alog": None, "aout": None,
+                    "ok": True, "nested": None}
+    else:
+        I = build_iface(case["chain"], ctx)
     ctx.I = I
     ob = build_obj(case, I, ctx)
     ctx.obj = ob
